@@ -48,7 +48,7 @@ def core():
     D.append(Def('neg_loop_bytes', utf8=False, variants=[
         Var('Line', [R(rb'#[^\n]*', allow_greedy=True)]), Var('Nl', [T(b'\n')]), Var('Any', [R(b'(?s).', prio=0)])], tags=('bytes', 'loop', 'neg')))
     # --- minimal looping definitions for long inputs (several 8-byte batches, > 64 bytes)
-    D.append(Def('long_loop', utf8=False, skips=[T(b' ')], variants=[Var('W', [R(b'[a-z]+')]), Var('D', [T(b'.')])],
+    D.append(Def('long_loop', utf8=False, variants=[Var('W', [R(b'[a-z]+')]), Var('D', [T(b'.')])],
                  tags=('bytes', 'long')))
     # --- lazy quantifier: same language as greedy
     D.append(Def('lazy', variants=[
